@@ -1003,12 +1003,12 @@ def check_C19(rep, tier, seed, replay):
 
 # theorems named in each props file (for Print Assumptions); filled by props modules that exist
 PROP_THEOREMS = {
-    "C03": ["C03_named_constructs_decode"],
-    "C04": ["C04_bad_zlib_header_never_accepted"],
-    "C05": ["C05_bad_geometry_is_param_error", "C05_failure_is_absorbing"],
+    "C03": ["C03_decoder_tables_are_rfc_tables"],
+    "C04": ["C04_bad_zlib_header_never_accepted", "C04_rejected_iff_rfc_invalid"],
+    "C05": ["C05_bad_geometry_is_param_error", "C05_failure_is_absorbing", "C05_counts_within_bounds"],
     "C06": ["C06_undo_leaves_less_than_a_byte"],
     "C07": ["C07_read_bits_resume"],
-    "C08": ["C08_bad_geometry_untouched"],
-    "C13": ["C13_full_flush_is_stream_error"],
+    "C08": ["C08_window_and_truthful_status", "C08_bad_geometry_untouched"],
+    "C13": ["C13_full_flush_is_stream_error", "C13_errors_are_sticky", "C13_nonfinish_after_finish"],
     "C19": ["C19_clone_is_identity"],
 }
